@@ -20,7 +20,7 @@ EXPLANATION = (
     'coverage.  It decides that the mechanisms are on every path; it does not '
     'execute histories.')
 FLOORS = {'C01.a': 10, 'C01.b': 4, 'C01.c': 2, 'C01.d': 3, 'C01.e': 1, 'C01.h': 2,
-          'C01.f': 7, 'C01.m2': 5, 'C01.g': 1, 'C01.h': 2}
+          'C01.f': 7, 'C01.m2': 5, 'C01.g': 1, 'C01.h': 2, 'C01.i': 1}
 
 FILES = c08.FILES
 
@@ -38,7 +38,7 @@ RAW_WRITE_OWNERS = {
     S.LIST + '.clear': 'guarded clear',
     S.LIST + '.sort': 'guarded sort',
     S.LIST + '.reverse': 'guarded reverse',
-    S.LIST + '._on_change': 'sweep of MISSING placeholders after rebind',
+    S.LIST + '._remove_missing_items': 'sweep of MISSING placeholders after rebind',
     S.DICT + '.__init__': 'constructor fill',
     S.DICT + '._set_item_without_permission_check': 'the dict write primitive',
     S.DICT + '.popitem': 'guarded popitem',
@@ -267,13 +267,16 @@ def rule_d(ctx, raws):
       continue
     f = rw.func
     key = f'{f.fq}#{rw.kind}.{rw.slot}'
-    if key in DETACH_EXCEPTIONS:
+    is_sweep = rw.kind == 'list' and rw.slot == '__delitem__' and f is S.list_sweep_function(idx)
+    if key in DETACH_EXCEPTIONS or is_sweep:
+      if is_sweep:
+        key = f'{f.fq}#{rw.kind}.{rw.slot}'
       ok = True
-      if rw.slot == '__delitem__' and f.name == '_on_change':
+      if rw.slot == '__delitem__' and f is S.list_sweep_function(idx):
         # the exemption is checked, not assumed: the sweep deletes only
         # indices whose item compared equal to the MISSING marker
         ok = c08.sweeps_only_placeholders(idx, f)
-      ctx.ob('C01.d', key, ok, 'exempt: ' + DETACH_EXCEPTIONS[key], rw.loc,
+      ctx.ob('C01.d', key, ok, 'exempt: ' + DETACH_EXCEPTIONS.get(key, DETACH_EXCEPTIONS[S.LIST + '._on_change#list.__delitem__']), rw.loc,
              'the sweep can delete an element that is not a MISSING placeholder without detaching it')
       continue
     g = C.cfg_of(f.node)
@@ -316,6 +319,21 @@ def rule_d(ctx, raws):
            'sym_setparent(None) on the old value on every path', rw.loc,
            f'{rw.kind}.{rw.slot} removes a child that still reports this container as parent; path {bad}',
            bad)
+    # ... and the detached value becomes a root: every detach (sym_setparent(None)) in this
+    # function is paired with a path reset of the same value (sym_setpath(KeyPath()))
+    unpaired = []
+    for c in A.calls_in(f.node):
+      if (A.call_name(c) or '').endswith('.sym_setparent') and c.args and isinstance(c.args[0], ast.Constant) \
+          and c.args[0].value is None and isinstance(c.func, ast.Attribute):
+        recv = A.unparse(c.func.value)
+        paired = any((A.call_name(x) or '') == f'{recv}.sym_setpath' and x.args and isinstance(x.args[0], ast.Call)
+                     and (A.call_name(x.args[0]) or '').endswith('KeyPath') and not x.args[0].args
+                     for x in A.calls_in(f.node))
+        if not paired:
+          unpaired.append(f'line {c.lineno}: `{recv}` is detached but keeps its old path')
+    ctx.ob('C01.d', key + '#root-path', not unpaired,
+           'a value removed from the tree becomes a root: its path is reset together with its parent', rw.loc,
+           '; '.join(unpaired))
 
 
 def rule_e(ctx):
@@ -620,11 +638,11 @@ def rule_f(ctx):
             t = A.unparse(n.test, 200)
             conts = [x for x in n.body + n.orelse if isinstance(x, ast.Continue)]
             allowed = ('TopologyAware' in t or 'Symbolic' in t
-                       or (m.name == '_on_change' and t.replace(' ', '') in (
+                       or (m.name in ('_on_change', S.list_sweep_function(idx).name) and t.replace(' ', '') in (
                            'item.sym_path.key!=idx',)))
             if not allowed and (conts or A.has_call(n, lambda d: d.endswith('.sym_setpath') or d.endswith('.sym_setparent'))):
               problems.append(f'propagation conditioned on `{t}`')
-            if m.name == '_on_change' and 'sym_path.key' in t and 'TopologyAware' in t and 'and' in t:
+            if m.name in ('_on_change', S.list_sweep_function(idx).name) and 'sym_path.key' in t and 'TopologyAware' in t and 'and' in t:
               pass
         if not _iterates_all_items(m, lp.iter):
           problems.append(f'iterates `{A.unparse(lp.iter)}` instead of the symbolic items')
@@ -684,6 +702,40 @@ def rule_h(ctx):
     raise AnalysisError(f'only {n} functions take a field default as the value to store')
 
 
+def rule_i(ctx):
+  """An insertion never replaces anything, so inserting a value that is already an
+  item of this list is a second placement of one node.  _relocate_if_symbolic
+  cannot see it when the insert position equals the item's current position
+  (same parent, same path): the List primitive clones such a value itself."""
+  idx = ctx.index
+  f = idx.lookup_method(S.LIST, S.PRIMITIVE)
+  g = C.cfg_of(f.node)
+  ins = [k for k in g.nodes if k.kind == 'test' and isinstance(k.ast, ast.Call) and A.call_name(k.ast) == 'isinstance'
+         and len(k.ast.args) == 2 and A.unparse(k.ast.args[1]).endswith('Insertion')]
+  problems = []
+  if not ins:
+    problems.append('Insertion branch not found')
+  else:
+    ok = False
+    for m, lab in ins[0].succ:
+      if lab != 'true':
+        continue
+      seen, _ = g.reach(m, follow_exc=False)
+      seen.add(m.id)
+      tests = [g.nodes[i] for i in seen if g.nodes[i].kind == 'test' and isinstance(g.nodes[i].ast, ast.Compare)
+               and isinstance(g.nodes[i].ast.ops[0], ast.Is) and A.unparse(g.nodes[i].ast.left).endswith('.sym_parent')
+               and A.unparse(g.nodes[i].ast.comparators[0]) == 'self']
+      for t in tests:
+        for m2, l2 in t.succ:
+          if l2 == 'true' and m2.kind == 'stmt' and A.has_call(m2.ast, lambda d: d.endswith('.clone')):
+            ok = True
+    if not ok:
+      problems.append('an item of this list that is inserted again is not copied')
+  ctx.ob('C01.i', f.fq + '#insert-own-item', not problems,
+         'an item of the list that is inserted again (Insertion) is stored as a copy', f.loc,
+         '; '.join(problems) + ': l.insert(i, l[i]) stores one node at two positions')
+
+
 def run(ctx):
   ctx.consult(*FILES, 'pyglove/core/typing/class_schema.py')
   c08.rule_a(ctx, 'C01.a')
@@ -695,5 +747,6 @@ def run(ctx):
   rule_f(ctx)
   rule_g(ctx)
   rule_h(ctx)
+  rule_i(ctx)
   ctx.note(f'{len(raws)} raw storage writes in {len({r.func.fq for r in raws})} functions')
   ctx.assume('aliasing through user subclasses outside the repository is out of scope')
